@@ -176,7 +176,7 @@ def wait_internal(chk, prog, names, m):
         chk.check(len(sc) == 1 and (sc[0].args[1] is total), key + "/screen-gets-clock",
                   "screen.process_clocks is not called with the advanced frame clock: %s" % [(e.path, e.args[1:]) for e in sc])
     chk.check(seen == {True, False}, key + "/cases", "frame-end / no-frame-end cases missing: %s" % seen)
-    ok = seen == {True, False} and not any(key in v[0] for v in chk.violations)
+    ok = seen == {True, False} and not any(key in v[0] for v in getattr(chk, 'violations', getattr(getattr(chk, '_c', None), 'violations', [])))
     chk.sample({"machine": m, "paths": len(rs), "opaque": sorted(x.split("::")[-2] + "::" + x.split("::")[-1] for x in sub)})
     return ok
 
